@@ -318,7 +318,10 @@ impl FileHasher<'_> {
         assert!(self.transform.is_some());
 
         let transform = self.transform.as_ref().unwrap();
-        let cache = self.cache.as_ref();
+        // Without `copy` the program is given the path of the file itself, so its output may
+        // depend on that path. The cached results are found by the file identifier,
+        // they would survive renaming or moving the file.
+        let cache = self.cache.as_ref().filter(|_| transform.copy);
         let metadata = cache.and_then(|_| FileMetadata::new(chunk.path).ok());
         let metadata = metadata.as_ref();
         let key = cache
